@@ -51,6 +51,10 @@ class C05(AstKindProp):
         # default text in the docstring part of the class/function/argparse artefacts on or off (docstring kinds always
         # write it: without it they cannot carry a default at all)
         c = {"ir": irutil.ir_to_json(irj), "chain": chain, "inline": r.random() < 0.4, "opts": {}, "edd": r.random() < 0.6}
+        # fan-out: on a fifth of the chains every intermediate description OBJECT is first emitted as a class and only then
+        # as the next kind of the chain (what sync does with its one parsed truth); the class emission must not show
+        c["fan_out"] = r.random() < 0.2
+        run.dist["fan_out"][c["fan_out"]] += 1
         run.dist["default_text_in_ast_kinds"][c["edd"]] += 1
         run.dist["chain_len"][len(chain)] += 1
         for k in chain:
@@ -67,6 +71,13 @@ class C05(AstKindProp):
             o = {"inline_types": c["inline"]} if k in ("function", "method") else {}
             if k in kinds.AST_KINDS:
                 o["emit_default_doc"] = c.get("edd", True)
+            if c.get("fan_out") and k != "class":
+                try:
+                    kinds.emit_nocopy("class", cur, {"emit_default_doc": c.get("edd", True)})
+                except Exception:
+                    pass
+                cur = kinds.parse(k, kinds.emit_nocopy(k, cur, o))
+                continue
             cur = kinds.conv(k, cur, o)
         return ir, cur
 
